@@ -24,12 +24,7 @@ import "math"
 import "github.com/pbenner/autodiff/special"
 /* -------------------------------------------------------------------------- */
 func (a Int8) Equals(b ConstScalar, epsilon float64) bool {
-  v1 := a.GetFloat64()
-  v2 := b.GetFloat64()
-  return math.Abs(v1 - v2) < epsilon ||
-        (math.IsNaN(v1) && math.IsNaN(v2)) ||
-        (math.IsInf(v1, 1) && math.IsInf(v2, 1)) ||
-        (math.IsInf(v1, -1) && math.IsInf(v2, -1))
+  return a.GetInt8() == b.GetInt8()
 }
 /* -------------------------------------------------------------------------- */
 func (a Int8) Greater(b ConstScalar) bool {
